@@ -19,11 +19,11 @@ var profiles = map[string][]weighted{
 	"snapshot": {{"apply", 35}, {"tick", 6}, {"lagcompact", 8}, {"stalesuffix", 6}, {"snapshot", 8}, {"crash", 6}, {"crashop", 6}, {"restart", 8},
 		{"isolate", 6}, {"heal", 8}, {"restartall", 2}, {"addvoter", 1}, {"remove", 1}, {"demote", 1}, {"transfer", 2}, {"reload", 2}},
 	"durability": {{"apply", 30}, {"tick", 6}, {"restartall", 6}, {"crash", 8}, {"restart", 10}, {"crashop", 8}, {"isolate", 8}, {"partition", 8},
-		{"heal", 10}, {"reload", 4}, {"remove", 1}, {"addvoter", 1}, {"demote", 1}, {"stalesuffix", 4}, {"transfer", 2}, {"lossy", 2}},
+		{"heal", 10}, {"reload", 4}, {"remove", 1}, {"addvoter", 1}, {"demote", 1}, {"stalesuffix", 4}, {"transfer", 2}, {"lossy", 2}, {"cfgrestart", 5}},
 	"commit": {{"apply", 35}, {"tick", 6}, {"cutleader", 8}, {"partition", 8}, {"isolate", 4}, {"heal", 10}, {"addvoter", 2}, {"addnonvoter", 2},
 		{"demote", 2}, {"remove", 1}, {"crash", 4}, {"restart", 5}, {"barrier", 2}, {"lossy", 2}},
 	"membership": {{"apply", 20}, {"tick", 6}, {"addvoter", 9}, {"addnonvoter", 6}, {"demote", 7}, {"remove", 8}, {"transfer", 6}, {"isolate", 6},
-		{"heal", 8}, {"crash", 5}, {"restart", 6}, {"partition", 4}, {"crashop", 4}, {"reload", 2}, {"cutleader", 2}},
+		{"heal", 8}, {"crash", 5}, {"restart", 6}, {"partition", 4}, {"crashop", 4}, {"reload", 2}, {"cutleader", 2}, {"cfgrestart", 3}},
 	"clients": {{"apply", 45}, {"tick", 5}, {"barrier", 8}, {"transfer", 6}, {"isolate", 5}, {"heal", 6}, {"remove", 2}, {"demote", 1}, {"crash", 4},
 		{"restart", 5}, {"cutleader", 3}, {"lossy", 2}, {"snapshot", 2}},
 	"verify": {{"verify", 25}, {"cutleader", 10}, {"partition", 8}, {"isolate", 5}, {"heal", 10}, {"apply", 15}, {"lossy", 6}, {"addnonvoter", 2},
@@ -72,6 +72,9 @@ func GenShape(t *rapid.T, p *Program) {
 	flavourMode := oneOf(t, "flavourMode", 0, 0, 0, 0, 1, 1, 2, 2, 3)
 	if prof == "restore" {
 		flavourMode = oneOf(t, "flavourModeR", 0, 0, 1, 1, 2)
+	}
+	if prof == "durability" {
+		flavourMode = oneOf(t, "flavourModeD", 0, 0, 1, 2, 3, 3)
 	}
 	hbBase := oneOf(t, "hbBase", 50, 50, 100)
 	nvOdds := 6
@@ -172,6 +175,10 @@ func genAction(t *rapid.T, p *Program, ws []weighted) Action {
 	case "lagcompact":
 		a.N = oneOf(t, "writes", 3, 6, 12, 30)
 		a.Arg = rapid.IntRange(0, 1).Draw(t, "crashIt")
+	case "cfgrestart":
+		a.N = oneOf(t, "writes", 0, 1, 1, 2, 3)
+		a.Arg = rapid.IntRange(0, 3).Draw(t, "change")
+		a.Set = []int{rapid.IntRange(0, p.N-1).Draw(t, "member")}
 	case "slowconsumer":
 		a.Srv = tgt()
 		a.N = oneOf(t, "delayMs", 0, 1, 5, 20) // Config.NotifyCh must be "aggressively consumed": raft blocks on it by design
